@@ -4,6 +4,7 @@ NOT_YET = "check not built yet in this round (design in DESIGN.md section 6); wi
 
 # checks that exist but are temporarily not claimed (reason shown under not_applicable)
 PENDING = {
+    "C17": "check exists (harness/props/c17.py, Props/C17.lean) but its model is being brought in line with fix commits f1943417, 5d3f529a, 5396d924 in /repo; claimed again once correspondence holds",
 }
 
 # pid -> dict(technique, level_text, level_note, design_ref)   (only claimed properties)
@@ -144,3 +145,10 @@ _c("C12",
    "parents, taxa equivariance, progeny mean, UC = mean + i*sqrt(var); with Haldane positions the code's pairwise r composes as required (eq_enum_haldane over R).",
    "Independence of crossover indicators is C01/C02's; numpy.exp; the mirror step is modelled as a closed form; cov_D1st/D2st with t > 0 (random intermating) are correspondence-only (unused by the matrix classes). "
    "Spec = equality with enumeration computed two ways (Lean covOf up to 13 mask bits; an independent exact Fraction enumerator in Python). D15, D30-D33 fixed in /repo (pre-repair counterexamples kept).")
+_c("C06",
+   "29 theorems (Props/C06.lean): the sorting optimiser's k-prefix minimises c*sum(key) over all duplicate-free selections for ANY tie order numpy's argsort may return, and is feasible; both steepest-descent hill climbers terminate (proved, not assumed) for every "
+   "evaluation function, keep soln++wrk a permutation, report the evaluation of the returned decision, and on exit no single exchange has a lexicographically smaller (cv, score); sampling is feasible iff replace=False; crossover, mutation, memetic neighbourhoods and "
+   "MutatorA/B.hillclimb (repaired row-wise form, n = k early return) preserve feasibility for every draw; hence every individual reachable through ANY history of sampling/crossover/mutation/memetic steps and arbitrary re-selection (pymoo's selection/survival) is feasible; "
+   "brute-force enumeration is complete; integer rounding stays in bounds.",
+   "pymoo's evolutionary loop and SBX/PM/bit-flip internals are not modelled: truthfulness (reported = fresh evaluation) and mutual non-domination of what the 16 optimiser classes return are relational checks (Spec in Lean on the implementation's outputs) on every run; "
+   "numpy argsort returns some sorting permutation; np.random draws inside pymoo_addon recorded through a proxy module and replayed through the model. Partial: integer_round_in_bounds_partial (SBX/PM output in [xl,xu] is pymoo's contract). D6, D34, D35 fixed in /repo.")
